@@ -185,12 +185,24 @@ def _run_batch(case, T):
         if T is not None:
             T.register(g, "R:" + r)
         pool.append(g)
-    br_ = BatchReactor(list(case["subs"]), cache_enabled=case["cache"], cache_maxsize=case["max"],
-                       dedupe=case["dedupe"], strategy=case.get("strategy", "bt"),
-                       explicit_h=case.get("explicit_h", True), implicit_temp=case.get("implicit_temp", False))
+    if case.get("dict_entries"):          # entries given as dicts with the SMILES under host_key (second positional parameter)
+        data = [{"smi": s_, "row": i, "note": None} for i, s_ in enumerate(case["subs"])]
+        br_ = BatchReactor(data, "smi", cache_enabled=case["cache"], cache_maxsize=case["max"],
+                           dedupe=case["dedupe"], strategy=case.get("strategy", "bt"),
+                           explicit_h=case.get("explicit_h", True), implicit_temp=case.get("implicit_temp", False))
+    else:
+        data = list(case["subs"])
+        br_ = BatchReactor(data, cache_enabled=case["cache"], cache_maxsize=case["max"],
+                           dedupe=case["dedupe"], strategy=case.get("strategy", "bt"),
+                           explicit_h=case.get("explicit_h", True), implicit_temp=case.get("implicit_temp", False))
+    # derived views of the batch object
+    assert len(br_) == len(data) and list(br_) == data and all(br_[i] == data[i] for i in range(len(data)))
+    assert ("entries         : %d" % len(data)) in br_.describe() and ("entries=%d" % len(data)) in repr(br_) and "fit(" in br_.help()
     outs = []
     for c in case["calls"]:
         rules = [pool[o] if o is not None else r for r, o in zip(c["rules"], c["robj"])]
+        if c.get("tuple_rules"):          # any iterable of rules
+            rules = tuple(rules)
         res = br_.fit(rules, invert=c["inv"])
         key = "syn_bw" if c["inv"] else "syn_fw"
         outs.append([list(d[key]) for d in res])
@@ -745,6 +757,13 @@ def _gen_batch(rng, us, ec, exec_, n_entries, n_rules, ncalls=1, modes=ALLOC_MOD
     c = dict(kind="batch", subs=subs, calls=calls, pool=pool, cache=rng.random() < 0.85, max=rng.choice(maxes),
              dedupe=rng.random() < 0.8, alloc=rng.choice(modes), aseed=rng.randrange(1 << 30),
              gc_each=rng.random() < 0.5, exec=exec_)
+    if rng.random() < 0.3:
+        c["dict_entries"] = True
+    if exec_ == "real" and not implicit and rng.random() < 0.4:
+        c["strategy"] = rng.choice(["comp", "all"])
+    for cl in calls:
+        if rng.random() < 0.2:
+            cl["tuple_rules"] = True
     if implicit:
         c.update(explicit_h=False, implicit_temp=True)
     return c
@@ -907,6 +926,14 @@ def gen_cases(tier, rng):
     # -- batches, stub reactor (cache machine + fit structure under every allocator)
     for k in range(60 if q else 600):
         cases.append(_gen_batch(rng, us, ec, "stub", rng.randrange(2, 30 if q else 80), rng.randrange(1, 5), ncalls=rng.choice([1, 1, 2, 3])))
+    # -- degenerate batches: no entry, one entry, no rule, the same rule string three times
+    r0 = us[rng.randrange(len(us))]
+    s0 = r0.split(">>")[0]
+    for subs_, rules_ in (([], [r0]), ([s0], [r0]), ([s0, s0], []), ([s0], [r0, r0, r0])):
+        cases.append(dict(kind="batch", subs=subs_, calls=[dict(rules=list(rules_), robj=[None] * len(rules_), inv=False),
+                                                           dict(rules=list(rules_), robj=[None] * len(rules_), inv=True)],
+                          pool=[], cache=True, max=2, dedupe=True, alloc="lifo", aseed=1, gc_each=True, exec="stub",
+                          dict_entries=bool(len(subs_) % 2)))
     # -- batches, real reactor
     for k in range(10 if q else 80):
         cases.append(_gen_batch(rng, us, ec, "real", rng.randrange(4, 16 if q else 40), rng.randrange(1, 4), ncalls=rng.choice([1, 1, 2])))
